@@ -65,9 +65,31 @@ loom::thread_local! {
     static TL0: TlVal = TlVal::new(0);
     static TL1: TlVal = TlVal::new(1);
 }
+pub static LZ2_LIVE: AtomicUsize = AtomicUsize::new(0);
+pub struct LzSlow {
+    cell: loom::cell::UnsafeCell<usize>,
+}
+unsafe impl Sync for LzSlow {}
+impl LzSlow {
+    /// an initialiser with a scheduling point inside: two threads racing on the first access may both run
+    /// it, one value wins, the other is discarded; every thread must get the winner, ordered after ITS initialisation
+    fn new() -> LzSlow {
+        LZ2_LIVE.fetch_add(1, SeqCst);
+        let cell = loom::cell::UnsafeCell::new(0);
+        loom::thread::yield_now();
+        cell.with_mut(|p| unsafe { *p = 7 });
+        LzSlow { cell }
+    }
+}
+impl Drop for LzSlow {
+    fn drop(&mut self) {
+        LZ2_LIVE.fetch_sub(1, SeqCst);
+    }
+}
 loom::lazy_static! {
     static ref LZ0: LzVal = LzVal::new(0);
     static ref LZ1: LzVal = LzVal::new(1);
+    static ref LZ2: LzSlow = LzSlow::new();
 }
 
 #[derive(Clone, Copy, Debug, PartialEq, Eq, Hash, Serialize, Deserialize)]
@@ -76,6 +98,8 @@ pub enum StOp {
     TlNested,
     TlTry(u8),
     Lz(u8),
+    /// the lazy static whose initialiser yields
+    LzSlow,
     AStore,
     ALoad,
 }
@@ -127,6 +151,14 @@ fn exec(ops: &[StOp], tid: usize, x: &loom::sync::atomic::AtomicUsize, addrs: &M
                 }
                 addrs.lock().unwrap().push((k, v as *const _ as usize));
             }
+            StOp::LzSlow => {
+                let v: &LzSlow = &*LZ2;
+                let val = v.cell.with(|p| unsafe { *p });
+                if val != 7 {
+                    errs.lock().unwrap().push("lazy value (slow initialiser) not initialised".into());
+                }
+                addrs.lock().unwrap().push((2, v as *const _ as usize));
+            }
             StOp::AStore => x.store(1, SeqCst),
             StOp::ALoad => {
                 x.load(SeqCst);
@@ -170,6 +202,10 @@ pub fn run_loom(p: &StProg, iter_cap: usize) -> SRes {
             if e.len() > 20 {
                 return;
             }
+            if LZ2_LIVE.load(SeqCst) != 0 {
+                e.push(format!("iteration {}: {} values of the lazy static with the slow initialiser are still alive at the end of the iteration", it, LZ2_LIVE.load(SeqCst)));
+                LZ2_LIVE.store(0, SeqCst);
+            }
             for k in 0..2 {
                 if d[k] != expect_tl[k] {
                     e.push(format!("iteration {}: thread-local {} initialised {} times, {} threads touch it", it, k, d[k], expect_tl[k]));
@@ -211,7 +247,7 @@ pub fn run_loom(p: &StProg, iter_cap: usize) -> SRes {
                 h.join().unwrap();
             }
             let a = addrs.lock().unwrap();
-            for k in 0..2u8 {
+            for k in 0..3u8 {
                 let mut it = a.iter().filter(|(kk, _)| *kk == k).map(|(_, ad)| *ad);
                 if let Some(first) = it.next() {
                     if it.any(|ad| ad != first) {
@@ -231,7 +267,7 @@ pub fn run_loom(p: &StProg, iter_cap: usize) -> SRes {
 }
 
 fn alphabet() -> Vec<StOp> {
-    vec![StOp::Tl(0), StOp::Tl(1), StOp::TlNested, StOp::TlTry(0), StOp::Lz(0), StOp::Lz(1), StOp::AStore, StOp::ALoad]
+    vec![StOp::Tl(0), StOp::Tl(1), StOp::TlNested, StOp::TlTry(0), StOp::Lz(0), StOp::Lz(1), StOp::LzSlow, StOp::AStore, StOp::ALoad]
 }
 
 fn core() -> &'static Vec<StProg> {
@@ -259,6 +295,8 @@ fn core() -> &'static Vec<StProg> {
             v.push(StProg { threads: vec![a.clone()], join_first: false });
         }
         v.push(StProg { threads: vec![vec![StOp::Lz(0)], vec![StOp::Lz(0)], vec![StOp::Lz(0)], vec![StOp::Lz(0)]], join_first: false });
+        v.push(StProg { threads: vec![vec![StOp::LzSlow], vec![StOp::LzSlow], vec![StOp::LzSlow]], join_first: false });
+        v.push(StProg { threads: vec![vec![StOp::LzSlow, StOp::LzSlow], vec![StOp::LzSlow], vec![StOp::ALoad, StOp::LzSlow]], join_first: false });
         v.push(StProg { threads: vec![vec![StOp::Tl(0)], vec![StOp::Tl(0)], vec![StOp::Tl(0)], vec![StOp::Tl(0)]], join_first: true });
         v
     })
